@@ -166,10 +166,20 @@ fn check_dfa_graph(g: &dot::Graph, d: &DFA, prefix: &str, scope: &[String], base
             // two clusters can show the same picture (same word language written in a different order):
             // the entry edges decide which one belongs to this automaton
             // (command labels do not show the fallback level, so two different automata can also look alike)
-            let entries_ok = word_trans.iter().filter(|(_, _, id, _)| id == ident).all(|(from, to, _, _)| {
-                has_dashed(&node_id(*from), &format!("_{j}_{}", sv.states[sv.structure.start] + base))
-                    && sv.states.iter().enumerate().filter(|(i, _)| sv.structure.accept[*i]).all(|(_, s)| has_dashed(&format!("_{j}_{}", s + base), &node_id(*to)))
+            // exact comparison (a superset test would let the first of two look-alike clusters be taken by the
+            // automaton that has fewer entry points, leaving none for the other)
+            let start_id = format!("_{j}_{}", sv.states[sv.structure.start] + base);
+            let want_from: BTreeSet<String> = word_trans.iter().filter(|(_, _, id, _)| id == ident).map(|(from, _, _, _)| node_id(*from)).collect();
+            let want_to: BTreeSet<String> = word_trans.iter().filter(|(_, _, id, _)| id == ident).map(|(_, to, _, _)| node_id(*to)).collect();
+            let is_dashed = |e: &&dot::Edge| e.scope == scope && e.attrs.get("style").map(|x| x == "dashed").unwrap_or(false);
+            let got_from: BTreeSet<String> = g.edges.iter().filter(is_dashed).filter(|e| e.to == start_id).map(|e| e.from.clone()).collect();
+            let exits_ok = sv.states.iter().enumerate().filter(|(i, _)| sv.structure.accept[*i]).all(|(_, s)| {
+                let acc_id = format!("_{j}_{}", s + base);
+                let got_to: BTreeSet<String> = g.edges.iter().filter(is_dashed).filter(|e| e.from == acc_id).map(|e| e.to.clone()).collect();
+                got_to == want_to
             });
+            let entries_ok = got_from == want_from && exits_ok;
+            let _ = &has_dashed;
             if !entries_ok {
                 last_err = format!("cluster {c} shows the automaton but the dashed entry / exit edges lead elsewhere");
                 continue;
